@@ -102,3 +102,62 @@ Definition combo_filter (ctrl : name) (arity : nat) (rows : list row) : result (
   else
     let sel := combo_tids ctrl rows in
     construct (filter (fun r => forallb (fun t => tid_eqb t None || tid_mem t sel) (row_tids ctrl r)) rows).
+
+(* ---- vocabulary of the source translations of SparseCoverPlateGenerator._generate_and_unmask_initial_plate,
+   InitialRetrospectivePlateGenerator.generate_and_unmask_initial_plate and
+   filter_dataset_to_treatments_that_appear_in_at_least_one_combo (harness/src_functions.py -> Generated/SrcRetroGen.v).
+   One definition per primitive (one numpy / Generator / batchie.data call).  A set of treatment ids is ANY list of its
+   elements (the functions only test membership and emptiness). ---- *)
+(* screen.treatment_ids: one row of ids per experiment (None = CONTROL_SENTINEL_VALUE) *)
+Definition treatment_ids (ctrl : name) (s : screen_t) : list (list tid) := map (row_tids ctrl) s.
+(* np.isin(a, l) / np.in1d(a, l).reshape(a.shape), a 2-d *)
+Definition isin2 (a : list (list tid)) (l : list tid) : list bvec := map (map (fun t => tid_mem t l)) a.
+(* ~m, m 2-d *)
+Definition not2 (m : list bvec) : list bvec := map (map negb) m.
+(* np.any(m, axis=1) / np.all(m, axis=1) *)
+Definition any_rows (m : list bvec) : bvec := map (existsb (fun b => b)) m.
+Definition all_rows (m : list bvec) : bvec := map (forallb (fun b => b)) m.
+(* a & b on selection vectors of equal length *)
+Fixpoint vand (a b : bvec) : bvec :=
+  match a, b with x :: a', y :: b' => (x && y) :: vand a' b' | _, _ => [] end.
+(* np.arange(n)[m]: the positions of the true entries; IndexError (tag 92) unless m has n entries *)
+Definition positions_of (n : nat) (m : bvec) : result (list nat) :=
+  if length m =? n then Ok (vec_positions m) else Err 92%Z.
+(* rng.choice(a, size=1): the recorded answer [i], as i; refused (tag 94) unless i is an element of a (numpy answers from the
+   array), tag 91 for an answer that is not one index, 90 when the recorded answers are exhausted *)
+Definition choose_one (a : list nat) (ds : list draw) : result (nat * list draw) :=
+  match ds with
+  | DInts [i] :: ds1 => if memb i a then Ok (i, ds1) else Err 94%Z
+  | DInts _ :: _ => Err 91%Z
+  | _ => Err 90%Z
+  end.
+(* a[idx], a 2-d, idx a list of row numbers: IndexError (tag 92) for a row number outside a *)
+Definition rows_at (a : list (list tid)) (idx : list nat) : result (list (list tid)) :=
+  res_map_all (fun i => match nth_error a i with Some r => Ok r | None => Err 92%Z end) idx.
+(* np.setdiff1d(a, l): the ids of a that are not in l (numpy also sorts and de-duplicates: not observed) *)
+Definition setdiff_ids (a : list (list tid)) (l : list tid) : list tid := filter (fun t => negb (tid_mem t l)) (concat a).
+(* names[~v] = "unobserved_plate" on np.array(["initial_plate"] * n, dtype=str), a '<U13' array: the stored value is truncated
+   to 13 characters ([unobserved_plate]); IndexError (tag 92) unless v has one entry per name *)
+Definition label_unobserved (names : list name) (v : bvec) : result (list name) :=
+  if length v =? length names
+  then Ok (map (fun nb : name * bool => if snd nb then fst nb else unobserved_plate) (combine names v))
+  else Err 92%Z.
+(* Screen(<treatment names, doses, sample names of s>, observations = o, plate_names = p, observation_mask = m):
+   ValueError (tag 91) unless every array has one entry per experiment *)
+Definition screen_with (s : screen_t) (o : list Z) (p : list name) (m : bvec) : result screen_t :=
+  if (length o =? length s) && (length p =? length s) && (length m =? length s)
+  then construct (map (fun x : row * Z * name * bool => {| r_sample := r_sample (fst (fst (fst x))); r_plate := snd (fst x);
+                                    r_treats := r_treats (fst (fst (fst x))); r_obs := snd (fst (fst x)); r_mask := snd x |})
+                      (combine (combine (combine s o) p) m))
+  else Err 91%Z.
+(* self._generate_and_unmask_initial_plate(screen, rng): any function of the screen and of the recorded answers still unread *)
+Definition initial_inner := screen_t -> list draw -> result (screen_t * list draw).
+(* screen.treatment_arity *)
+Definition screen_arity (arity : nat) : Z := Z.of_nat arity.
+(* a == CONTROL_SENTINEL_VALUE, a 2-d (the reshape to a.shape changes nothing) *)
+Definition is_sentinel2 (a : list (list tid)) : list bvec := map (map (fun t => tid_eqb t None)) a.
+(* a[v], a 2-d, v a selection vector over its rows *)
+Definition rows_where (a : list (list tid)) (v : bvec) : list (list tid) := vselect v a.
+(* np.unique(s.treatment_names[v].flatten()): the sorted distinct treatment names of the selected experiments (only logged) *)
+Definition unique_treatment_names (s : screen_t) (v : bvec) : list name :=
+  sort_uniq name_cmp (concat (map (fun r => map fst (r_treats r)) (vselect v s))).
